@@ -1365,6 +1365,15 @@ func ruleC19HostLabel(c *Checker) {
 		c.fail(R, name, "host split into labels", p.Pos(fn.Pos()), "the host name is not split into labels: an over-long label reaches the address, whose String() panics")
 		return
 	}
+	// the text measured is the host's String() (the form that is kept): the display form is the conversion
+	// that panics, and a Go-syntax form adds bytes
+	for w := range p.backSlice(split.Call.Args[0], 0) {
+		if cl, ok := w.(*ssa.Call); ok && !cl.Call.IsInvoke() {
+			if g := cl.Common().StaticCallee(); g != nil && !p.InModule(g) && g.Signature.Recv() != nil && g.Pkg != nil && strings.Contains(g.Pkg.Pkg.Path(), "svchost") {
+				c.check(g.Name() == "String", R, name, "labels measured on the host's String()", p.Pos(cl.Pos()), "Host.String()", "the host name is measured in its "+g.Name()+"() form, not as it is kept: ForDisplay is the very conversion that panics on an over-long label, GoString adds quotes and a type name to the first and last label")
+			}
+		}
+	}
 	sep, _ := constString(split.Call.Args[1])
 	c.check(sep == ".", R, name, "host split at \".\"", p.Pos(split.Pos()), "strings.Split(host, \".\")", "the host name is split at "+strconv.Quote(sep)+", not at \".\": no label boundary is ever found, the length test sees single characters (or the whole name), and a 2000-character label is accepted — String() then panics")
 	for w := range p.backSlice(split.Call.Args[0], 0) {
